@@ -126,6 +126,7 @@ type schedRun struct {
 	snap                                []string
 	stuck                               bool
 	free                                bool      // free-running mode: gates only log
+	lastCtx                             context.Context
 	ctxUpper                            time.Time // the run context (deadline) was created before this instant
 	dirty                               bool      // something other than the loop moved since the loop was last at loop.top
 	lStale                              bool      // the loop would only repeat an identical iteration
@@ -410,6 +411,17 @@ type scriptedExec struct {
 	r    *schedRun
 	name string
 	ctx  context.Context
+	// like the command executor: a stop request that reaches the executor before its process was started
+	// (Kill or PreventStart) makes Run start nothing
+	started, prevented bool
+}
+
+func (s *scriptedExec) PreventStart() {
+	s.r.mu.Lock()
+	if !s.started {
+		s.prevented = true
+	}
+	s.r.mu.Unlock()
 }
 
 func (s *scriptedExec) SetStdout(io.Writer) {}
@@ -438,6 +450,8 @@ func (s *scriptedExec) Kill(sig os.Signal) error {
 		if sn == "kill" || r.sigd[s.name] == "" || r.sigd[s.name] == "none" {
 			r.sigd[s.name] = sn
 		}
+	} else if !s.started {
+		s.prevented = true
 	}
 	r.mu.Unlock()
 	if !isHandlerName(s.name) {
@@ -450,9 +464,12 @@ var errScripted = errors.New("exit status 1")
 
 func (s *scriptedExec) Run() error {
 	r := s.r
+	// the decision to start (context not expired, no stop request seen by the executor) and the ExecBegin record are made
+	// under r.mu, the lock under which the driver declares the deadline passed: "Timeout" can then not slip in between
+	// a start that was decided before the deadline and its record
+	r.mu.Lock()
 	if s.ctx.Err() != nil {
 		// like exec.CommandContext: an expired context refuses to start the process
-		r.mu.Lock()
 		if !r.ctxFired {
 			r.ctxFired = true
 			r.emit(Ev{"ev": "Timeout"})
@@ -465,17 +482,26 @@ func (s *scriptedExec) Run() error {
 		}
 		return s.ctx.Err()
 	}
-	r.mu.Lock()
+	if s.prevented {
+		r.mu.Unlock()
+		if isHandlerName(s.name) {
+			r.emit(Ev{"ev": "HRefused", "h": hIndex(s.name)})
+		} else {
+			r.emit(Ev{"ev": "ExecRefused", "s": stepIndex(s.name)})
+		}
+		return errors.New("not started: the run is being stopped")
+	}
+	s.started = true
 	r.attempts[s.name]++
 	att := r.attempts[s.name]
 	r.aliveP[s.name] = true
 	r.sigd[s.name] = "none"
-	r.mu.Unlock()
 	if isHandlerName(s.name) {
 		r.emit(Ev{"ev": "HBegin", "h": hIndex(s.name)})
 	} else {
 		r.emit(Ev{"ev": "ExecBegin", "s": stepIndex(s.name), "att": att})
 	}
+	r.mu.Unlock()
 	var out string
 	if r.free {
 		out = r.freeOutcome(s, att)
@@ -566,6 +592,9 @@ func init() {
 		} else {
 			r.emit(Ev{"ev": "ExecCreate", "s": stepIndex(step.Name)})
 		}
+		r.mu.Lock()
+		r.lastCtx = ctx // a child of the run's context: lets the driver see the moment the deadline has really fired
+		r.mu.Unlock()
 		return &scriptedExec{r: r, name: step.Name, ctx: ctx}, nil
 	})
 }
@@ -857,6 +886,18 @@ func (r *schedRun) checkTimeout() {
 		return
 	}
 	time.Sleep(time.Until(up.Add(timeoutDur + 2*time.Millisecond)))
+	// the context's deadline is a timer: on a busy machine it may fire late. "Timeout" is only declared once a context
+	// derived from the run's context is seen expired (or, if no executor was ever created, after a generous margin)
+	r.mu.Lock()
+	lc := r.lastCtx
+	r.mu.Unlock()
+	if lc != nil {
+		for i := 0; i < 20000 && lc.Err() == nil; i++ {
+			time.Sleep(100 * time.Microsecond)
+		}
+	} else {
+		time.Sleep(30 * time.Millisecond)
+	}
 	r.mu.Lock()
 	if !r.ctxFired {
 		r.ctxFired = true
